@@ -71,6 +71,22 @@ func (vc *FuncVC) resolveType(text string) types.Type {
 	}
 	tv, err := types.Eval(vc.eng.fset, vc.eng.pkg.Types, token.NoPos, text)
 	if err != nil || tv.Type == nil {
+		// qualified identifiers (imports are file-scoped, so Eval cannot see them)
+		if strings.HasPrefix(text, "*") {
+			return types.NewPointer(vc.resolveType(text[1:]))
+		}
+		if strings.HasPrefix(text, "[]") {
+			return types.NewSlice(vc.resolveType(text[2:]))
+		}
+		if i := strings.Index(text, "."); i > 0 {
+			for _, imp := range vc.eng.pkg.Types.Imports() {
+				if imp.Name() == text[:i] {
+					if obj := imp.Scope().Lookup(text[i+1:]); obj != nil {
+						return obj.Type()
+					}
+				}
+			}
+		}
 		specFail("cannot resolve type %q: %v", text, err)
 	}
 	return tv.Type
@@ -224,6 +240,9 @@ func (sc *Scope) ident(name string) V {
 		case *Closure:
 			return v.Ref
 		case *Addr:
+			if v.Sync {
+				return V{v.Ref.T, SInt, nil} // a sync object is identified by the object that owns it
+			}
 			specFail("%s is an interior address", name)
 		}
 		specFail("%s has no first-class value (%T)", name, r)
@@ -507,6 +526,16 @@ func (sc *Scope) call(x ECall) V {
 		es := w.sortOf(u.Elem())
 		hn, hs := elemsHeap(es)
 		return V{sel(sel(sc.heapTerm(hn, hs), app("sarr", b.T)), i.T), es, u.Elem()}
+	case "closed", "chancap":
+		need(1)
+		ch := arg(0)
+		key := x.Fn + "@chan"
+		arr := zeroIntArr()
+		arr = sc.heapTerm(key, arraySort(SInt, SInt))
+		if x.Fn == "closed" {
+			return V{not(eq(sel(arr, ch.T), "0")), SBool, nil}
+		}
+		return V{sel(arr, ch.T), SInt, nil}
 	case "zeroArr":
 		need(1)
 		so, _ := vc.ghostSort(x.Args[0].String())
@@ -543,8 +572,20 @@ func (sc *Scope) call(x ECall) V {
 			dn, dso, vn, vso := mapHeaps(w, u)
 			frame(dn, dso)
 			frame(vn, vso)
+		case *types.Struct:
+			nt, ok := t.(*types.Named)
+			if !ok || !isObjectStruct(t) {
+				specFail("framed expects a slice, map or object struct type")
+			}
+			for i := 0; i < u.NumFields(); i++ {
+				f := u.Field(i)
+				if isSyncType(f.Type()) {
+					continue
+				}
+				frame(fieldHeapName(nt, f), arraySort(SInt, w.sortOf(f.Type())))
+			}
 		default:
-			specFail("framed expects a slice or map type")
+			specFail("framed expects a slice, map or object struct type")
 		}
 		return V{and(parts...), SBool, nil}
 	case "upd":
